@@ -949,8 +949,16 @@ impl C08 {
         if rp.unsigned_tx != tx || rp.inputs.len() != ins.len() {
             return ctx.report(st, Violation::new("C08:wire:reply-transaction-differs", format!("the returned PSBT is about another transaction; case={:?}", case)));
         }
+        // The witnesses are judged against the previous outputs as the request described them:
+        // a signature commits to that description (taproot: of every input), so with a
+        // misdescribed input it is worthless on the chain, which is the protection, not a defect.
+        let described: Vec<TxOut> = prev_outs
+            .iter()
+            .enumerate()
+            .map(|(i, o)| if wg.inputs[i].kind == WInKind::ForeignMisdescribed { TxOut { value: o.value, script_pubkey: Address::p2wpkh(&foreign_pk(0x60 + i as u8), net).script_pubkey() } } else { o.clone() })
+            .collect();
         for (i, f) in ins.iter().enumerate() {
-            if let Err(what) = verify_wire_input(&secp, &tx, &prev_outs, i, &f.expect, &rp.inputs[i], net) {
+            if let Err(what) = verify_wire_input(&secp, &tx, &described, i, &f.expect, &rp.inputs[i], net) {
                 return ctx.report(st, Violation::new(
                     format!("C08:wire:witness:{}:{}", in_kind_name(&wg.inputs[i].kind), what),
                     format!("input {} of the signed withdrawal (protocol v{}): {}; case={:?}", i, pver, what, case),
